@@ -1544,6 +1544,11 @@ post_t * instance_t::parse_post(char *          line,
     if (! post->amount.is_null() && post->amount.has_commodity()) {
       context.journal->register_commodity(post->amount.commodity(), post.get());
 
+      if (post->amount.has_annotation() && post->amount.annotation().price &&
+          post->amount.annotation().price->has_commodity())
+        context.journal->register_commodity(post->amount.annotation().price->commodity(),
+                                            post.get());
+
       if (! post->amount.has_annotation()) {
         std::vector<fixed_rate_t> rates;
         get_applications<fixed_rate_t>(rates);
